@@ -1,6 +1,6 @@
 (* C11 - Region algebra behaves as set algebra on pixels.
    Only property theorems here, each closed by [exact] of a lemma proved elsewhere. *)
-From LV Require Import Region.RegionDefs Gen.Funs_C11 Region.RegionProofs0 Region.RegionProofs.
+From LV Require Import Region.RegionDefs Gen.Funs_C11 Region.RegionProofs0 Region.RegionProofs Region.RegionIter.
 Local Open Scope Z_scope.
 
 (* clipping: the function re-translated from rfbregion.c computes rectangle intersection *)
@@ -87,6 +87,13 @@ Proof. exact iter_partition. Qed.
 Theorem C11_iter_nonempty : forall revX revY r, WF r ->
   Forall (fun '(x1, y1, x2, y2) => x1 < x2 /\ y1 < y2) (rgn_iter revX revY r).
 Proof. exact iter_nonempty. Qed.
+
+(* order: any rectangle iterated earlier is either in the same band and entirely before the
+   later one in x (in the requested x direction), or entirely before it in y (in the requested
+   y direction) *)
+Theorem C11_iter_monotone : forall rx ry r, WF r ->
+  allpairs (rect_before rx ry) (rgn_iter rx ry r).
+Proof. exact iter_monotone. Qed.
 
 Theorem C11_bbox_encloses : forall r x y, WF r ->
   WF (rgn_bbox r) /\ (rgn_mem r x y = true -> rgn_mem (rgn_bbox r) x y = true).
